@@ -49,6 +49,16 @@ var corsRouteAllow0 = []string{"GET", "HEAD", "OPTIONS", "POST"}
 
 func hasAny(xs []string) bool { return contains(xs, "*") }
 
+// lowerSet lower-cases a set of header names (names are case-insensitive; an implementation may canonicalise them).
+func lowerSet(xs []string) []string {
+	out := make([]string, len(xs))
+	for i, x := range xs {
+		out[i] = strings.ToLower(x)
+	}
+	sort.Strings(out)
+	return out
+}
+
 func tokenSet(v string) []string {
 	var out []string
 	for _, p := range strings.Split(v, ",") {
@@ -152,7 +162,7 @@ func corsJudge(cfg corsCfg, q corsReq, status int, h map[string][]string, corsRo
 		c12 = append(c12, fmt.Sprintf("%s=%q, configured %v", hACAC, acac, cfg.Creds))
 	}
 	exp, hasExp := get(hACEH)
-	if (len(cfg.Exposed) > 0) != hasExp || (hasExp && !mon.EqualSets(tokenSet(exp), mon.SortedCopy(cfg.Exposed))) {
+	if (len(cfg.Exposed) > 0) != hasExp || (hasExp && !mon.EqualSets(lowerSet(tokenSet(exp)), lowerSet(cfg.Exposed))) {
 		c12 = append(c12, fmt.Sprintf("%s=%q, configured %v", hACEH, exp, cfg.Exposed))
 	}
 	vary := map[string]bool{}
@@ -176,7 +186,7 @@ func corsJudge(cfg corsCfg, q corsReq, status int, h map[string][]string, corsRo
 				c12 = append(c12, fmt.Sprintf("allowed preflight: %s=%q, configured '*'", hACAH, ah))
 			}
 		case len(cfg.AllowH) > 0:
-			if !mon.EqualSets(tokenSet(ah), mon.SortedCopy(cfg.AllowH)) {
+			if !mon.EqualSets(lowerSet(tokenSet(ah)), lowerSet(cfg.AllowH)) {
 				c12 = append(c12, fmt.Sprintf("allowed preflight: %s=%q, configured %v", hACAH, ah, cfg.AllowH))
 			}
 		default:
